@@ -726,6 +726,13 @@ XProg(v) ==
          mk(<<[ValueL("VB", "U1") EXCEPT !.expr = "@var:Default"], [ValueL("VC", "U1") EXCEPT !.expr = "@var:Default"]>>,
             <<SetD("SetB", "b", <<ItL(1)>>), SetD("SetC", "c", <<ItL(2)>>)>>,
             <<XInj("InjectB", <<>>, "U1", <<ItS(1)>>, 1), XInj("InjectC", <<>>, "U1", <<ItS(2)>>, 1), XInj("InjectB2", <<>>, "U1", <<ItS(1)>>, 1)>>)
+    [] v = "sets-in-injector-file" ->           \* the provider sets are declared in the injector file itself (copied into the output, which then imports wire)
+         mk(<<XF("P2", <<>>, "T2"), XF("P1", <<"T2">>, "T1"), XF("P3", <<>>, "T3")>>, <<SetD("SetA", "a", <<ItL(1), ItL(2)>>), SetD("SetSpare", "a", <<ItL(3)>>)>>,
+            <<XInj("InjectA", <<>>, "T1", <<ItS(1)>>, 1), XInj("InjectB", <<>>, "T2", <<ItS(1)>>, 1)>>)
+         @@ [opts |-> [setsinwire |-> TRUE]]
+    [] v \in {"same-provider-twice-direct", "same-provider-twice-in-set"} ->   \* one provider function listed twice
+         mk(<<XF("P2", <<>>, "T2"), XF("P1", <<"T2">>, "T1")>>, <<SetD("SetA", "a", <<ItL(1), ItL(2), ItL(1)>>)>>,
+            <<XInj("Inject", <<>>, "T1", IF v = "same-provider-twice-direct" THEN <<ItL(1), ItL(2), ItL(1)>> ELSE <<ItS(1)>>, 1)>>)
     [] v = "same-set-twice-direct" ->          \* one set listed twice in the same call
          mk(<<XF("P2", <<>>, "T2"), XF("P1", <<"T2">>, "T1")>>, <<SetD("SetA", "a", <<ItL(1)>>)>>,
             <<XInj("Inject", <<>>, "T1", <<ItS(1), ItL(2), ItS(1)>>, 1)>>)
@@ -743,7 +750,8 @@ XVariants == {"star-foreign-tag-missing", "star-foreign-tag-ok", "two-files-firs
               "foreign-struct-star-full-sig", "unnamed-params-same-type-name", "set-through-plain-alias-package",
               "generic-injector", "method-injector",
               "inline-set-partly-used", "inline-set-unused", "inline-set-in-named-set", "inline-set-conflict", "inline-set-twice",
-              "embedded-fields-struct", "embedded-fields-fieldsof", "same-text-values-two-packages"}
+              "embedded-fields-struct", "embedded-fields-fieldsof", "same-text-values-two-packages",
+              "sets-in-injector-file", "same-provider-twice-direct", "same-provider-twice-in-set"}
 FamilyX(p, vs) == \E v \in vs : p = XProg(v)
 
 (* ======================================================================== *)
